@@ -9,7 +9,8 @@
 //!        method, `.irev` = `into_iter!(..).rev()`; `zfe` = the range is the argument of `zip(..)` of a counter of
 //!        the same length.  (`collect_const!` const items: vlib/progs/c09_cc.py)
 //!   rg.rangefrom[.fe|.ev] <ty> <a> <k>        first k items of `a..` (`next` k times / `for_each!` with a
-//!        `break` after k items / `eval!` with `take(k)`, which pulls k+1 items)
+//!        `break` after k items / `eval!` with `take(k)`: k pulls each — `take` tests its countdown before the
+//!        source is pulled, since /repo 9827f8a + 7ecb606)
 //!   rg.rftop.<via> <ty> <a> <k>            `a..` with a close to the type's MAX, driven up to and past MAX:
 //!        what a consumer observes step by step, `[v:<x>;…]` followed by `panic` (a step panicked) or `end`
 //!        (the iteration ENDED although the consumer wanted more); <via> ∈ next (k calls of `next`), fe
@@ -194,7 +195,8 @@ macro_rules! ty_mod {
                 both!(emit, inc, a, b, "zfe.rev", &bwd, |r, v| iter::for_each! {(_, x) in 0..n, zip(r), rev() => { v.push(show(x)); guard(&v, limit); }});
             }
 
-            /// `a..` : first k items; in scope while every pulled item stays below MAX
+            /// `a..` : first k items; in scope while every item the consumer asks for stays below MAX (beyond that
+            /// std's own `RangeFrom` overflows; `rg.rftop` compares that region step by step)
             pub fn from(a: $T, k: usize, out: &mut Out) {
                 let max: $T = $max;
                 // number of values strictly between a (inclusive) and MAX (exclusive), capped
@@ -229,14 +231,16 @@ macro_rules! ty_mod {
                     fin(v)
                 });
                 out.emit(&format!("rg.rangefrom.fe {} {} {}", NAME, show(a), k), &imp, &ora, k <= room);
-                // `take(k)` pulls k+1 items from its source before it stops
+                // `take(k)` pulls exactly k items from its source (the countdown is tested at the top of the loop,
+                // `__cim_take_guard!`), so the boundary `k == room` — the k-th item is MAX-1, the next step would be
+                // the one at MAX — is in scope like for the two consumers above
                 let imp = catch(|| {
                     let mut v: Vec<String> = Vec::new();
                     iter::eval!(&(a..), take(k), for_each(|x| v.push(show(x))));
                     fin(v)
                 });
                 let ora = catch(|| fin((a..).take(k).map(show).collect()));
-                out.emit(&format!("rg.rangefrom.ev {} {} {}", NAME, show(a), k), &imp, &ora, k + 1 <= room);
+                out.emit(&format!("rg.rangefrom.ev {} {} {}", NAME, show(a), k), &imp, &ora, k <= room);
             }
 
 
@@ -246,9 +250,8 @@ macro_rules! ty_mod {
 
             /// `a..` driven up to and past MAX (see the module header): every consumer, k items wanted
             pub fn from_top(a: $T, k: usize, out: &mut Out) {
-                let max: $T = $max;
-                // d = number of values `a..` can yield before the step that has to go beyond MAX
-                let d = (a..max).take(k + 3).count();
+                // (below, d = the number of values in `a..MAX`: what `a..` yields before the step that has to go
+                // beyond MAX; every consumer is in scope for every k, whether k < d, k == d or k > d)
                 let mut emit = |via: &str, arg: String, imp: String, ora: String, scope: bool| {
                     out.emit(&format!("rg.rftop.{} {} {} {}", via, NAME, show(a), arg), &imp, &ora, scope);
                 };
@@ -301,8 +304,9 @@ macro_rules! ty_mod {
                     });
                     emit("fe", k.to_string(), imp, ora, true);
                 }
-                // `take(k)`: konst's emitted loop pulls a (k+1)-th item before it stops, std's `Take` does not;
-                // the two differ exactly when that extra pull is the step at MAX (k == d): existing observation
+                // `take(k)`: like std's `Take`, konst's emitted loop stops BEFORE pulling a (k+1)-th item (countdown
+                // tested at the top of the loop), so also for k == d — where that pull would be the step at MAX and
+                // panic, as it did up to /repo 9827f8a~1 — both yield the k values and nothing else: in scope for all k
                 let ora = steps(|v, _| {
                     for x in (a..).take(k) {
                         v.push(tok(x));
@@ -313,13 +317,13 @@ macro_rules! ty_mod {
                     iter::for_each! {x in a.., take(k) => { v.push(tok(x)); }}
                     want(v, k);
                 });
-                emit("take", k.to_string(), imp, ora.clone(), k != d);
+                emit("take", k.to_string(), imp, ora.clone(), true);
                 let imp = steps(|v, _| {
                     iter::eval!(&(a..), take(k), for_each(|x| v.push(tok(x))));
                     want(v, k);
                 });
-                emit("evtake", k.to_string(), imp, ora, k != d);
-                // zip with a k-item iterator: `a..` first (both pull k+1 items from it) / second (k items)
+                emit("evtake", k.to_string(), imp, ora, true);
+                // zip with a k-item iterator: `a..` first (konst and std both pull k+1 items from it) / second (k items)
                 let imp = steps(|v, _| {
                     iter::for_each! {(x, _) in a.., zip(0..k) => { v.push(tok(x)); }}
                     want(v, k);
